@@ -27,6 +27,15 @@ def bootstrap():
     with warnings.catch_warnings():
         warnings.simplefilter('ignore')
         import zope
+        # the venv's .pth may already have bound the namespace to another checkout
+        mine = os.path.join(src, 'zope')
+        others = [d for d in zope.__path__
+                  if os.path.abspath(d) != os.path.abspath(mine)
+                  and not os.path.isdir(os.path.join(d, 'testrunner'))]
+        zope.__path__[:] = [mine] + others
+        for k in [k for k in sys.modules if k == 'zope.testrunner'
+                  or k.startswith('zope.testrunner.')]:
+            del sys.modules[k]
         for p in list(sys.path):
             if p.endswith('site-packages'):
                 zp = os.path.join(p, 'zope')
